@@ -277,7 +277,8 @@ def r05d(ctx, run):
     run.check(not seen_msgs, lam.site(), "header lowered under the enclosing lambda's params and scopes; body under exactly its own parameter table, no scopes", "Ctx::lower_lambda",
               "own-params", lam.file, seen_msgs[0][0] if seen_msgs else lam.ln, "; ".join(m for _, m in seen_msgs[:3]))
     com = ctx.syn.fn("Ctx::lower_comptime", FILE)
-    save_restore(com, run, ["params", "scopes"])
+    # a comptime block is compiled as a function of its own: the jump labels of the enclosing function do not exist there either
+    save_restore(com, run, ["params", "scopes", "label_kinds"])
 
 
 def rules(ctx):
